@@ -38,7 +38,10 @@ CLAIM = dict(
          'a valid selection (dispatch_trivial / _maxvol / _rect / _spec). The pinned arg-max np.argmax(F) is kept as '
          'maxvol_rect_pinned: it agrees with the code whenever every selected residual is positive '
          '(rect_pinned_agrees) and is refuted otherwise by a machine-checked witness over Qc: duplicate rows and '
-         'B[I] <> Id on A = [[1],[0]], dr_min = dr_max = 1 (rect_distinct_refuted).',
+         'B[I] <> Id on A = [[1],[0]], dr_min = dr_max = 1 (rect_distinct_refuted). The boolean lu_contract_b that '
+         'the correspondence evaluates exactly on recorded LU initialisations is sound for the oracle contract '
+         '(lu_check_sound), hence maxvol_spec / rect_spec hold without residual assumption for every replayed run that '
+         'passes it (maxvol_spec_checked, rect_spec_checked); iteration limit 0 returns the initialisation (maxvol_limit0).',
     note='The LU-based initialisation is an oracle with contract (A = B0 A[I0], B0[I0] = Id, I0 distinct), validated '
          'numerically on every recorded call and exactly (over Qc) on the exact streams; full column rank enters '
          'only through that contract. The determinant reading of max|B| <= e ("no single row swap enlarges the volume '
